@@ -107,6 +107,11 @@ func (s *Service) proxyToSingleEndpoint(ctx context.Context, w http.ResponseWrit
 	resp, err := s.transport.RoundTrip(proxyReq)
 	stats.BackendResponseMs = time.Since(backendStart).Milliseconds()
 
+	if err == nil && (resp.StatusCode < 100 || resp.StatusCode > 999) {
+		// net/http refuses to relay such a status line (WriteHeader panics): an unusable answer
+		resp.Body.Close()
+		err = fmt.Errorf("backend answered with invalid status code %d", resp.StatusCode)
+	}
 	if err != nil {
 		// Suppress error logging for connection failures handled by retry logic
 		if core.IsConnectionError(err) {
